@@ -14,6 +14,8 @@
 //! `replay`  TLC-generated content (REPLAY lines): Given -> Decode -> Encode -> Decode.
 //! `history` schedules of ContentHist (disturbances = decoding damaged input, per thread) around judged calls:
 //!           Reset -> (Encode -> Decode)* -> Disturb* -> the same (Encode -> Decode)*.
+//! `deep`    nesting at both limits (arrays / dictionaries around a literal string with nested parentheses) decoded on a
+//!           2 MiB thread of a supervised worker process (`worker`; `--exe` may be a debug-profile build of this binary).
 //! `inline`  seeded inline images (all supported colour spaces x BPC x small geometry, data with EI,
 //!           white-space, delimiters): Given -> Decode -> Encode -> Decode.
 use lopdf::content::{Content, Operation};
@@ -99,17 +101,10 @@ const OPERATORS: &[&str] = &[
 ];
 const OP_ALPHABET: &[u8] = b"abcdefghijklmnopqrstuvwxyzABCDEFGHIJKLMNOPQRSTUVWXYZ*'\"";
 
-/// operators the property quantifies over: non-empty, over the alphabet, not beginning like one of the
-/// keywords true / false / null (DESIGN C14) and not one of the inline-image delimiters
+/// operators the property quantifies over: non-empty strings over the alphabet.  (The words null / true / false
+/// and the inline-image delimiters are "unwritable" -- Content!Domain -- and appear in the dedicated opname cases.)
 fn in_domain_operator(op: &str) -> bool {
-    !op.is_empty()
-        && op.bytes().all(|b| OP_ALPHABET.contains(&b))
-        && !op.starts_with("true")
-        && !op.starts_with("false")
-        && !op.starts_with("null")
-        && !op.starts_with("BI")
-        && op != "ID"
-        && op != "EI"
+    !op.is_empty() && op.bytes().all(|b| OP_ALPHABET.contains(&b)) && !["null", "true", "false", "BI", "ID", "EI"].contains(&op)
 }
 
 fn random_operator(rng: &mut Rng) -> String {
@@ -121,6 +116,8 @@ fn random_operator(rng: &mut Rng) -> String {
             let s: String = (0..n).map(|_| *rng.pick(OP_ALPHABET) as char).collect();
             // prefixes of keywords (t, tr, nul, fals, n, f) are wanted
             let s = if rng.chance(1, 6) { rng.pick(&["t", "tr", "tru", "n", "nu", "nul", "f", "fa", "fals", "R", "obj", "endobj", "stream", "B", "I", "E", "D"]).to_string() } else { s };
+            // now and then an operator that begins or ends like a keyword of the operand grammar
+            let s = if rng.chance(1, 25) { format!("{}{}", rng.pick(&["null", "true", "false", "BI", "ID", "EI", "x", "T"]), rng.pick(&["x", "Type", "*", "null", "BI", "true"])) } else { s };
             if in_domain_operator(&s) {
                 return s;
             }
@@ -335,18 +332,227 @@ fn probes() -> Vec<(String, Vec<Operation>)> {
     let mut add = |c: &str, ops: Vec<Operation>| v.push((format!("probe.{c}"), ops));
     add("operator-digit", vec![op("d0", vec![Object::Integer(5), Object::Integer(0)]), op("q", vec![])]);
     add("operator-digit", vec![op("d1", vec![Object::Integer(1), Object::Integer(0), Object::Integer(0), Object::Integer(0), Object::Integer(9), Object::Integer(9)])]);
-    add("operator-keyword-prefix", vec![op("nullx", vec![])]);
-    add("operator-keyword-prefix", vec![op("truex", vec![Object::Integer(1)])]);
-    add("operator-keyword", vec![op("true", vec![])]);
-    add("operator-keyword", vec![op("null", vec![Object::Integer(1)]), op("q", vec![])]);
-    add("operator-BI-prefix", vec![op("BIx", vec![])]);
-    add("operator-BI-bare", vec![op("BI", vec![])]);
-    add("operator-ID-EI", vec![op("ID", vec![]), op("EI", vec![])]);
     add("operator-other-regular", vec![op("a-b", vec![]), op("x1", vec![])]);
     add("operator-empty", vec![op("", vec![Object::Integer(1)])]);
     add("operand-reference", vec![op("Do", vec![Object::Reference((1, 0))])]);
     add("operand-reference-nested", vec![op("TJ", vec![Object::Array(vec![Object::Reference((1, 0))])])]);
     v
+}
+
+// ---------------------------------------------------------------------------------------------
+// the edges of the domain (Content!Domain): operator names against the keyword set, numbers at and beyond the
+// range of f32, nesting at and above the reader's limit
+
+/// every keyword of the operand grammar -- alone, as prefix, suffix and infix of an operator, with 0 and 1 operands,
+/// first, in the middle and last in a sequence
+fn opname_cases() -> Vec<(String, Vec<Operation>)> {
+    let mut v = vec![];
+    for kw in ["null", "true", "false", "BI", "ID", "EI", "R", "obj"] {
+        let forms: Vec<(&str, String)> = vec![
+            ("alone", kw.to_string()),
+            ("prefix", format!("{kw}x")),
+            ("prefix", format!("{kw}Type")),
+            ("prefix", format!("{kw}*")),
+            ("prefix", format!("{kw}'")),
+            ("prefix", format!("{kw}{kw}")),
+            ("suffix", format!("x{kw}")),
+            ("suffix", format!("T*{kw}")),
+            ("infix", format!("a{kw}b")),
+        ];
+        for (pos, name) in forms {
+            for (nargs, args) in [(0, vec![]), (1, vec![Object::Integer(1)]), (2, vec![lit(b"s"), Object::Array(vec![Object::Integer(1)])])] {
+                let cls = format!("opname.{kw}.{pos}");
+                // alone in the stream, between two operations, last, first
+                v.push((cls.clone(), vec![op(&name, args.clone())]));
+                if nargs < 2 {
+                    v.push((cls.clone(), vec![op("q", vec![]), op(&name, args.clone()), op("Q", vec![])]));
+                    v.push((cls.clone(), vec![op("q", vec![]), op(&name, args.clone())]));
+                    v.push((cls, vec![op(&name, args.clone()), op("Tj", vec![lit(b"after")])]));
+                }
+            }
+        }
+    }
+    v
+}
+
+/// reals at and beyond the range of f32, built through the API
+fn number_cases() -> Vec<(String, Vec<Operation>)> {
+    let w = |o: Object| vec![op("q", vec![]), op("w", vec![o]), op("Q", vec![])];
+    let mut v: Vec<(String, Vec<Operation>)> = vec![];
+    for (n, x) in [
+        ("max", f32::MAX),
+        ("min", f32::MIN),
+        ("max-pred", f32::from_bits(f32::MAX.to_bits() - 1)),
+        ("min-positive", f32::MIN_POSITIVE),
+        ("subnormal-least", f32::from_bits(1)),
+        ("subnormal-most", f32::from_bits(0x007f_ffff)),
+        ("two-pow-127", 1.7014118e38),
+    ] {
+        v.push((format!("number.finite.{n}"), w(Object::Real(x))));
+        v.push((format!("number.finite.{n}"), vec![op("TJ", vec![Object::Array(vec![Object::Real(x), Object::Real(-x)])])]));
+    }
+    for (n, x) in [("inf", f32::INFINITY), ("neg-inf", f32::NEG_INFINITY), ("nan", f32::NAN)] {
+        v.push((format!("number.nonfinite.{n}"), w(Object::Real(x))));
+        v.push((format!("number.nonfinite.{n}"), vec![op("d", vec![Object::Array(vec![Object::Real(x)]), Object::Integer(0)]), op("S", vec![])]));
+    }
+    // the public conversions from f64 saturate without notice
+    for (n, x) in [("from-f64-1e300", 1e300f64), ("from-f64-1e39", 1e39), ("from-f64-neg-1e300", -1e300), ("from-f64-just-above-max", 3.4028236e38)] {
+        v.push((format!("number.nonfinite.{n}"), w(Object::from(x))));
+    }
+    v.push(("number.finite.from-f64-max".to_string(), w(Object::from(3.4028234e38f64))));
+    v.push(("number.finite.from-f64-tiny".to_string(), w(Object::from(1e-300f64))));
+    v
+}
+
+/// number literals at and beyond the range of f32 as a producer spells them: (class, content)
+fn number_literals() -> Vec<(String, Vec<u8>)> {
+    let zeros = |n: usize| "0".repeat(n);
+    let lits: Vec<(&str, String)> = vec![
+        ("finite.max", "340282350000000000000000000000000000000.0".to_string()),
+        ("finite.max-int-spelling", "340282350000000000000000000000000000000".to_string()),
+        ("finite.rounds-to-max", "340282356000000000000000000000000000000.0".to_string()),
+        ("beyond.just", "340282360000000000000000000000000000000.0".to_string()),
+        ("beyond.1e39", format!("1{}.0", zeros(39))),
+        ("beyond.1e39-trailing-dot", format!("1{}.", zeros(39))),
+        ("beyond.neg-1e39", format!("-1{}.0", zeros(39))),
+        ("beyond.1e60", format!("+1{}.5", zeros(60))),
+        ("beyond.1e39-int-spelling", format!("1{}", zeros(39))),
+        ("beyond.neg-1e45-int-spelling", format!("-1{}", zeros(45))),
+        ("tiny.1e-50", format!("0.{}1", zeros(49))),
+        ("tiny.neg-1e-60", format!("-.{}1", zeros(59))),
+        ("tiny.subnormal", format!("0.{}14", zeros(44))),
+    ];
+    let mut v = vec![];
+    for (n, l) in lits {
+        v.push((format!("literal.{n}"), format!("q\n{l} w\nQ").into_bytes()));
+        v.push((format!("literal.{n}"), format!("[{l} (a) {l}] TJ\n/P <</K {l}>> DP").into_bytes()));
+        // clause 2: the same literal next to an inline image
+        v.push((format!("literal-inline.{n}"), format!("q\nBI /W 2 /H 1 /BPC 8 /CS /G ID AB\nEI\n{l} w\nQ").into_bytes()));
+    }
+    v
+}
+
+fn nested(kind: &str, depth: usize, leaf: Object) -> Object {
+    let mut o = leaf;
+    for level in 0..depth {
+        let dict_level = match kind {
+            "arr" => false,
+            "dict" => true,
+            _ => level % 2 == 1,
+        };
+        o = if dict_level { dict(vec![(b"K", o)]) } else { Object::Array(vec![o]) };
+    }
+    o
+}
+
+/// arrays / dictionaries nested at, just below and above the reader's limit (parser::MAX_NESTING = 48)
+fn nest_cases() -> Vec<(String, Vec<Operation>)> {
+    let mut v = vec![];
+    // (the JSON reader of TLC accepts 255 levels of nesting: a dictionary level costs three, so 64 is the deepest case)
+    for depth in [8usize, 31, 32, 33, 47, 48, 49, 50, 64] {
+        for kind in ["arr", "dict", "mix"] {
+            v.push((
+                format!("nest.{kind}.{depth}"),
+                vec![op("q", vec![]), op("DP", vec![name(b"T"), nested(kind, depth, Object::Integer(1))]), op("Q", vec![])],
+            ));
+        }
+    }
+    // depth inside the dictionary of an inline image (its entries are not bracketed)
+    for depth in [47usize, 48, 49] {
+        v.push((format!("nest.inline.{depth}"), vec![api_image("G", false, 1, 1, 8, vec![(b"X".to_vec(), nested("arr", depth, Object::Integer(1)))], b'A')]));
+    }
+    v
+}
+
+// ---------------------------------------------------------------------------------------------
+// deep nesting on a small stack, in a supervised worker process (a stack overflow aborts the process: data)
+
+/// `arrays` arrays (or dictionaries) around a literal string with `parens` balanced parentheses
+fn deep_ops(kind: &str, arrays: usize, parens: usize) -> Vec<Operation> {
+    vec![op("q", vec![]), op("TJ", vec![nested(kind, arrays, lit(&nested_parens(parens)))]), op("Q", vec![])]
+}
+
+fn deep_cases() -> Vec<(String, usize, usize)> {
+    let mut v = vec![];
+    for kind in ["arr", "dict"] {
+        for (a, p) in [(0usize, 100usize), (48, 0), (30, 100), (40, 100), (47, 100), (48, 50), (48, 99), (48, 100), (48, 101), (49, 100), (20, 20)] {
+            v.push((kind.to_string(), a, p));
+        }
+    }
+    v
+}
+
+/// worker side: one case per line {"kind","arrays","parens","stack"}; the answer is [Encode event, Decode event]
+fn worker() {
+    lopdf_conform::sup::worker_loop(|line| {
+        let c: Value = serde_json::from_str(line).expect("case");
+        let (kind, a, p) = (c["kind"].as_str().unwrap().to_string(), c["arrays"].as_u64().unwrap() as usize, c["parens"].as_u64().unwrap() as usize);
+        let stack = c["stack"].as_u64().unwrap() as usize;
+        let cls = c["cls"].as_str().unwrap().to_string();
+        let case = c["case"].as_u64().unwrap();
+        let h = std::thread::Builder::new()
+            .stack_size(stack)
+            .spawn(move || roundtrip_events(case, &cls, 0, &deep_ops(&kind, a, p)))
+            .expect("spawn");
+        // the events are deeply nested JSON: they are passed on as text (serde_json refuses to *parse* more than 128 levels)
+        match h.join() {
+            Ok(ev) => ev.iter().map(|e| e.to_string()).collect::<Vec<_>>().join("\t"),
+            Err(_) => "PANIC".to_string(),
+        }
+    });
+}
+
+/// supervisor side: run the deep cases in `--exe worker` (a debug- or release-profile build of this binary) on threads
+/// with a `--stack`-byte stack; a worker that dies or hangs yields a Decode event with res = "crash:..." / "hang"
+fn deep(args: &[String]) {
+    let exe = arg(args, "--exe").unwrap();
+    let label = arg_or(args, "--label", "release");
+    let stack = arg_u64(args, "--stack", 2 << 20);
+    use std::io::Write;
+    let mut out = std::io::BufWriter::new(std::fs::File::create(arg(args, "--out").unwrap()).expect("create"));
+    let cases = deep_cases();
+    let lines: Vec<String> = cases
+        .iter()
+        .enumerate()
+        .map(|(i, (k, a, p))| json!({"case": i, "kind": k, "arrays": a, "parens": p, "stack": stack, "cls": format!("deep.{label}.{k}.{a}x{p}")}).to_string())
+        .collect();
+    let outcomes = lopdf_conform::sup::run_cases(&exe, &["worker".to_string()], &lines, std::time::Duration::from_secs(30), 2048);
+    for (i, ((k, a, p), oc)) in cases.iter().zip(outcomes).enumerate() {
+        let cls = format!("deep.{label}.{k}.{a}x{p}");
+        let why = match oc {
+            lopdf_conform::sup::Outcome::Line(l) if l != "PANIC" => {
+                for e in l.split('\t') {
+                    writeln!(out, "{e}").expect("write");
+                }
+                continue;
+            }
+            lopdf_conform::sup::Outcome::Line(_) => "crash:panic in worker thread".to_string(),
+            lopdf_conform::sup::Outcome::Crash(st) => format!("crash:{st}"),
+            lopdf_conform::sup::Outcome::Hang => "hang".to_string(),
+        };
+        // the worker died: the operations and their encoding are computed here on a large stack (encoding is not
+        // what overflows), the Decode event records the death
+        let (k2, a2, p2, cls2) = (k.clone(), *a, *p, cls.clone());
+        let ev = std::thread::Builder::new()
+            .stack_size(256 << 20)
+            .spawn(move || {
+                let ops = deep_ops(&k2, a2, p2);
+                match encode(&ops) {
+                    Ok(bytes) => json!({"ev": "Encode", "case": i, "cls": cls2, "t": 0, "ops": ops_to_tla(&ops), "res": "ok", "bytes": bytes_to_json(&bytes)}),
+                    Err(e) => json!({"ev": "Encode", "case": i, "cls": cls2, "t": 0, "ops": ops_to_tla(&ops), "res": e, "bytes": []}),
+                }
+                .to_string()
+            })
+            .expect("spawn")
+            .join()
+            .expect("encode on a large stack");
+        let encoded = ev.contains("\"res\":\"ok\"");
+        writeln!(out, "{ev}").expect("write");
+        if encoded {
+            writeln!(out, "{}", json!({"ev": "Decode", "case": i, "cls": cls, "t": 0, "res": why, "ops": []})).expect("write");
+        }
+    }
+    out.flush().expect("flush");
 }
 
 // ---------------------------------------------------------------------------------------------
@@ -377,8 +583,12 @@ fn record(args: &[String]) {
         put_roundtrip(&mut out, case, &cls, &ops);
         case += 1;
     }
-    for (cls, ops) in api_images() {
+    for (cls, ops) in api_images().into_iter().chain(opname_cases()).chain(number_cases()).chain(nest_cases()) {
         put_roundtrip(&mut out, case, &cls, &ops);
+        case += 1;
+    }
+    for (cls, bytes) in number_literals() {
+        put_chain(&mut out, case, &cls, &bytes, json!({}));
         case += 1;
     }
     for i in 0..n {
@@ -918,8 +1128,10 @@ fn main() {
         Some("replay") => replay(&args),
         Some("inline") => inline(&args),
         Some("history") => history(&args),
+        Some("worker") => worker(),
+        Some("deep") => deep(&args),
         _ => {
-            eprintln!("usage: c14 record --seed S --n N [--rows all|critical|none] --out F | cases --seed S --n N --out F | replay --in F --out F | inline --seed S --n N --out F | history --seed S --in F --out F [--reps N]");
+            eprintln!("usage: c14 record --seed S --n N [--rows all|critical|none] --out F | cases --seed S --n N --out F | replay --in F --out F | inline --seed S --n N --out F | history --seed S --in F --out F [--reps N] | deep --exe PATH --label L [--stack BYTES] --out F | worker");
             std::process::exit(2)
         }
     }
